@@ -7,7 +7,7 @@ CONSTANTS
   MateChoices = {2}
   RejectChoices = {TRUE}
   MaxPairChoices = {0}
-  Classes = {"A","N","W","E"}
+  Classes = {"A","N","E"}
   PriorChoices = {"none","stale"}
   PlainStrats = {1}
   PairLevelOnly = FALSE
